@@ -265,6 +265,8 @@ async def run_history(product, evs, seed):
     await w.uid(product)
     words, outs, sets, snaps, concrete = [], [], [], [], []
     tavail = 0
+    sched_state = {}      # schedule index -> bitmap hex as last reported (None: unknown after a malformed response)
+    nsched = len(pd.load_tables()["schedules"])
 
     async def do_set(label, name, v):
         dev = dict(w.devices()).get(label)
@@ -279,8 +281,16 @@ async def run_history(product, evs, seed):
         r, frames = await pd.run_set(w, lambda: p.set(display_for(p, v), retries=1, timeout=0.01))
         o = frame_out(r, frames)
         outs.append(o)
-        sets.append(dict(label=label, name=name, v=v, out=o, triple=list(triple), cls=cls, index=index,
-                         offset=offset, size=size, after=p.values.value))
+        rec = dict(label=label, name=name, v=v, out=o, triple=list(triple), cls=cls, index=index,
+                   offset=offset, size=size, after=p.values.value)
+        for suffix in ("_schedule_switch", "_schedule_parameter"):
+            if cls.startswith("Schedule") and name.endswith(suffix):
+                prefix = name[: -len(suffix)]
+                eco = w.snapshot()["ecomax"]
+                rec["sched"] = dict(prefix=prefix, bits=None if sched_state is None else dict(sched_state),
+                                    switch=eco.get(prefix + "_schedule_switch", [None, None, [None]])[2][0],
+                                    parameter=eco.get(prefix + "_schedule_parameter", [None, None, [None]])[2][0])
+        sets.append(rec)
 
     for ev in evs:
         k = ev["kind"]
@@ -297,6 +307,11 @@ async def run_history(product, evs, seed):
             if err is not None:
                 outs.append("decodeerror" if err == "IndexError" else f"exception:{err}")
             snaps.append((ev, before, w.snapshot(), err, tavail))
+            if k == "S":
+                if ev.get("ref") is None:
+                    sched_state = None
+                elif all(i < nsched for i, _, _, _ in ev["ref"]):
+                    sched_state = {i: bits for i, _, _, bits in ev["ref"]}
         elif k == "A":
             await w.thermostats_available(ev["n"])
             tavail = ev["n"]
@@ -435,8 +450,19 @@ def judge(product, evs, snaps, sets, tables):
             slot = o["pos"] + 1 + o["dev"] * o["per"]
             want = "SetThermostatParameterRequest:" + ".".join(str(x) for x in [slot] + list(v.to_bytes(s["size"], "little")))
             finding = "F3" if (o["dev"] >= 1 and o["hole"]) else None
+        elif o["kind"] == "schedule" and "sched" in s:
+            idx = o["pos"] // 2
+            sc = s["sched"]
+            finding = None
+            if sc["bits"] is None:
+                continue
+            bits = sc["bits"].get(idx, sc["bits"].get(str(idx)))
+            if tables["schedules"][idx] != sc["prefix"] or bits is None or sc["switch"] is None or sc["parameter"] is None:
+                want = "reqerror"
+            else:
+                want = "SetScheduleRequest:" + ".".join(str(x) for x in [1, idx, sc["switch"], sc["parameter"]] + list(bytes.fromhex(bits)))
         else:
-            continue    # schedule requests are judged by the correspondence (they carry three parameters' values)
+            continue
         if s["out"] != want:
             bad.append(("S3 the set request does not address the position the value was decoded from",
                         dict(device=label, name=name, value=v, expected=want, observed=s["out"], origin=o), finding))
